@@ -22,6 +22,10 @@ stat errmsg source mold newunit nml rec advance size eor id exist opened number 
 form recl position action blank delim pad iolength c formatted unformatted non_intrinsic
 """.split())
 
+# names spelled like the word of a dotted operator: fparser mistakes '. ge .' inside '.neg. ge .lt. x' for the
+# operator .GE. (C03 explores that separately and reports it)
+OPERATOR_WORDS = {"eq", "ne", "lt", "le", "gt", "ge", "and", "or", "not", "eqv", "neqv", "true", "false"}
+
 _INTR_USE = [
     ("sin", 1, 1), ("cos", 1, 1), ("sqrt", 1, 1), ("abs", 1, 1), ("exp", 1, 1), ("max", 2, 4),
     ("min", 2, 3), ("mod", 2, 2), ("int", 1, 2), ("real", 1, 2), ("size", 1, 2), ("merge", 3, 3),
@@ -65,7 +69,7 @@ def _mkname(r, taken, hostile_ok=True):
             else:
                 n = "".join(ch.upper() if r.random() < 0.5 else ch for ch in n)
         low = n.lower()
-        if low in KEYWORDS or low in intrinsics.ALL_NAMES or low in taken:
+        if low in KEYWORDS or low in intrinsics.ALL_NAMES or low in taken or low in OPERATOR_WORDS:
             continue
         if len(n) > 20:
             continue
@@ -247,9 +251,12 @@ class ProgramGen:
         """Expressions of whole programs avoid the shape of the known C03
         finding (defined binary operator with a dotted token to its right),
         which C03 itself explores and reports."""
+        from .expr import text_has_defbin_dotted_right
+        from .model import to_src
+
         for _ in range(50):
             e = f()
-            if not has_defbin_with_dotted_right(e):
+            if not has_defbin_with_dotted_right(e) and not text_has_defbin_dotted_right(to_src(text_of(e))):
                 return e
         return ("leaf", self.env.scalar())
 
@@ -562,7 +569,9 @@ class ProgramGen:
             "doubleprecision" if False else "double precision",
         ]
         if allow_derived:
-            opts += ["type(%s)" % self.env.typename(), "class(%s)" % self.env.typename(), "class(*)"]
+            opts += ["type(%s)" % self.env.typename(), "class(%s)" % self.env.typename(), "class(*)",
+                     "type(%s(%s = 4, %s = 10))" % (self.env.typename(), self.env.kindname(), self.env.const()),
+                     "type(%s(8, :))" % self.env.typename(), "class(%s(4, *))" % self.env.typename()]
         return r.choice(opts)
 
     def entity(self, init=True, arrays=True):
@@ -727,8 +736,10 @@ class ProgramGen:
             v = r.choice([".true.", ".false."])
         elif c < 0.88:
             v = "(1.0, 2.0)"
-        elif c < 0.94:
+        elif c < 0.92:
             v = r.choice(["-1", "+2.5", "-1.0e-3"])
+        elif c < 0.95:
+            v = r.choice(["z'1f'", 'b"1010"', "o'17'", "Z'FF'"])
         else:
             v = self.env.const()
         if self.p(0.2):
@@ -851,12 +862,20 @@ class ProgramGen:
             attrs.append("abstract")
         if self.p(0.1) and not any(a.startswith("extends") for a in attrs):
             attrs.append("bind(c)")
+        params = []
+        if self.p(0.2) and not any(a.startswith("bind") for a in attrs):
+            params = [self.env.kindname()] + ([self.env.const()] if self.p(0.5) else [])
+            params = list(dict.fromkeys(params))
+        ptxt = "(%s)" % ", ".join(params) if params else ""
         if attrs:
-            t = "type, " + ", ".join(attrs) + " :: " + name
+            t = "type, " + ", ".join(attrs) + " :: " + name + ptxt
         else:
-            t = "type " + ("{+:: +}" if self.p(0.5) else ":: ") + name
+            t = "type " + ("{+:: +}" if self.p(0.5) else ":: ") + name + ptxt
         self.S("type_def", t, cid=cid, role="open")
         self.depth += 1
+        for k, pn in enumerate(params):
+            self.env.note(pn)
+            self.S("type_param_def", "integer, %s :: %s%s" % ("kind" if k == 0 else "len", pn, " = 4" if k == 0 and self.p(0.5) else ""))
         if self.p(0.15) and ctx.in_module:
             self.S("type_private", "private", cid=cid)
         if self.p(0.1) and not any(a.startswith("extends") for a in attrs):
@@ -934,8 +953,11 @@ class ProgramGen:
         elif c < 0.75:
             spec = "operator(%s)" % r.choice(["+", ".dot.", "==", "*", ".X."])
             t = "interface " + spec
-        elif c < 0.85:
+        elif c < 0.82:
             spec = "assignment(=)"
+            t = "interface " + spec
+        elif c < 0.86:
+            spec = r.choice(["write(formatted)", "read(unformatted)", "read(formatted)", "write(unformatted)"])
             t = "interface " + spec
         else:
             t = "abstract interface"
@@ -1274,7 +1296,10 @@ class ProgramGen:
         self.S("assign", "%s = %s" % (self.var(), self.expr()), flags={"simple"})
 
     def x_labelled(self, ctx):
-        self.S("assign", "%s = %s" % (self.var(), self.expr(1)), label=self.label(ctx))
+        l = self.label(ctx)
+        if self.p(0.08) and len(l) < 4:
+            l = "0" + l
+        self.S("assign", "%s = %s" % (self.var(), self.expr(1)), label=l)
 
     def x_ptr_assign(self, ctx):
         r = self.r
